@@ -1,6 +1,7 @@
 import Mouette.Model.Proto
 import Mouette.Model.UnionFind
 import Mouette.Model.PQueue
+import Mouette.Model.BinHeap
 /-
 Protocol front-end for C20.
   `uf <nops> (a x | u x y | f x | c x y | k x)*`
@@ -8,8 +9,8 @@ Protocol front-end for C20.
      partition is the list, per element in `_elts` order, of the *smallest element position* in its
      component (root identities are forgotten).
   `pq <nops> (p x <prio> | o | e)*`   prio ∈ `-inf | +inf | p/q`
-     reply: per op: push → `-`; pop → `x:prio` of the model's canonical choice plus the multiset is
-     re-derivable by the harness; `E` on empty; empty? → 0/1.
+     reply: per op `<answer>;<front>`: push → `-`; pop → `x:prio` of the item the heapq model hands out (`err:Index` on
+     empty); empty? → 0/1; front = `x:prio` of `data[0]` after the operation, `-` when empty.
 -/
 namespace Mouette.DriveC20
 open Mouette.Proto Mouette.UF
@@ -106,14 +107,22 @@ def qOp : P QOp := do
   | "e" => pure .empty
   | _ => failure
 
+def fmtItem (e : Nat × PQ.Prio) : String := s!"{e.1}:{fmtPrio e.2}"
+
+/-- `front` of a heap (`self.data[0]`), `-` when empty -/
+def fmtFront (d : List BinHeap.Item) : String := match d.head? with | some e => fmtItem e | none => "-"
+
+/-- queue histories are run on the model of heapq (`Model/BinHeap.lean`, proved to satisfy the heap contract in
+`Lemmas/BinHeap.lean`): every record is `<answer>;<front after the operation>`, a pop answers WHICH item came out
+(`x:prio`), so that the tie-breaking order is compared with the implementation as well -/
 def pqRun (ops : List QOp) : String :=
-  let (_, out) := ops.foldl (fun (acc : PQ.Queue × List String) op =>
+  let (_, out) := ops.foldl (fun (acc : List BinHeap.Item × List String) op =>
     match op with
-    | .push x w => (PQ.push acc.1 x w, acc.2 ++ ["-"])
-    | .pop => match PQ.pop acc.1 with
-        | none => (acc.1, acc.2 ++ ["err:Index"])
-        | some (e, q') => (q', acc.2 ++ [s!"{fmtPrio e.2}"])
-    | .empty => (acc.1, acc.2 ++ [fmtBool (PQ.empty acc.1)])) (([] : PQ.Queue), [])
+    | .push x w => let d := BinHeap.heappush acc.1 (x, w); (d, acc.2 ++ [s!"-;{fmtFront d}"])
+    | .pop => match BinHeap.heappop acc.1 with
+        | none => (acc.1, acc.2 ++ [s!"err:Index;{fmtFront acc.1}"])
+        | some (e, d) => (d, acc.2 ++ [s!"{fmtItem e};{fmtFront d}"])
+    | .empty => (acc.1, acc.2 ++ [s!"{fmtBool (PQ.empty acc.1)};{fmtFront acc.1}"])) (([] : List BinHeap.Item), [])
   " | ".intercalate out
 
 def handle (ts : List String) : Option String :=
